@@ -654,6 +654,230 @@ def brief(res):
 
 
 # ---------------------------------------------------------------------------------------------------------------------
+# Round 10: a returned model is the CALLER's.  "keep no state between calls" read from the caller's side: what parse_script /
+# parse_expression hand out is a plain mutable dict / list tree; whatever the caller does to it afterwards (rewrite numbers,
+# rename keys, empty or extend lists) must neither reach a model returned by another call nor the result of a later call.
+# == / JSON comparison of fresh results cannot see a node that two results share, so two oracles:
+#   returned-models-disjoint    no dict / list object is part of two returned models (identity walk, every model kept alive)
+#   caller-owns-returned-model  parse, deep-copy, EDIT the returned model everywhere in place, parse the same and other texts
+#                               (also after a parse that raised) - results equal the pristine copies; the models returned
+#                               EARLIER for the other texts still equal their copies.  The edit is undone in place afterwards.
+# The Lean model has nothing to say here (values, not objects): implementation-side oracles only.
+# ---------------------------------------------------------------------------------------------------------------------
+
+OWN_STYLES = ['values', 'keys', 'clear', 'grow']
+OWN_PROBES = [
+    ('script', 'for v in arr:\n    f(v)\nendfor'),
+    ('script', "for v, i in f(0, 1):\n    if i == 0:\n        continue\n    endif\n    x = i + 1\nendfor"),
+    ('script', 'while a < 1:\n    if b:\n        break\n    elif c:\n        continue\n    else:\n        a = a + 1\n    endif\nendwhile'),
+    ('script', "function f(a, b...):\n    return\nendfunction\nasync function g():\n    return 0\nendfunction\ninclude 'a.bare'\ninclude <b.bare>"),
+    ('script', "lbl:\njumpif (!x) lbl\njump lbl\nreturn\nx = -1 + 0 * 1 - [a b] + 'one' + null + true + false"),
+    ('script', 'for a in b:\n    for c, d in a:\n        for e in c:\n            break\n        endfor\n    endfor\nendfor\nfor a in b:\nendfor'),
+    ('expr', 'f(0, 1, -1) + (0) * 1 - !g()'),
+    ('expr', "'' + 'a' + [a b] + null + true"),
+    ('expr', '0'), ('expr', '1'), ('expr', 'x'),
+]
+OWN_REJECTED = [('script', 'for v in arr:\n    x = (1'), ('script', 'for v in arr:\n    f(v)'), ('script', 'for v, i in arr:\nendfor\nendfor'), ('script', 'x = 1 + \\'),
+                ('script', 'while a:\nfor b in c:\nendwhile'), ('script', "include 'a'\ninclude 'b"), ('script', 'function f(a):\nfor v in a:\nendfunction'),
+                ('expr', 'f(0, 1,'), ('expr', '(1'), ('expr', '1 +'), ('expr', "0 'x")]
+
+
+def run_kind(kind, text):
+    return run_parse(text) if kind == 'script' else run_expr(text)
+
+
+def strict(res):
+    """comparison form that tells 1 / 1.0 / true apart (== does not)"""
+    return json.dumps(res, sort_keys=True, default=repr)
+
+
+def mutable_nodes(model):
+    """every dict / list object reachable in a returned model, each once"""
+    out = []
+    seen = set()
+    stack = [model]
+    while stack:
+        node = stack.pop()
+        if isinstance(node, (dict, list)) and id(node) not in seen:
+            seen.add(id(node))
+            out.append(node)
+            stack.extend(node.values() if isinstance(node, dict) else node)
+    return out
+
+
+def path_of(model, target_id):
+    stack = [(model, [])]
+    seen = set()
+    while stack:
+        node, path = stack.pop()
+        if isinstance(node, (dict, list)) and id(node) not in seen:
+            seen.add(id(node))
+            if id(node) == target_id:
+                return path
+            for k, v in (node.items() if isinstance(node, dict) else enumerate(node)):
+                stack.append((v, path + [k]))
+    return None
+
+
+class Owned:
+    """the mutable nodes of every model returned so far; the models are kept alive, so an id names one object"""
+
+    def __init__(self):
+        self.items = []
+        self.nodes = {}
+
+    def add(self, kind, text, model):
+        """-> None | {...} describing the first node of `model` that a model returned by ANOTHER call holds too"""
+        ix = len(self.items)
+        self.items.append((kind, text, model))
+        hit = None
+        for node in mutable_nodes(model):
+            prev = self.nodes.setdefault(id(node), ix)
+            if prev != ix and hit is None:
+                okind, otext, omodel = self.items[prev]
+                hit = {'items': [[okind, otext], [kind, text]], 'paths': [path_of(omodel, id(node)), path_of(model, id(node))], 'node': jsonable(node)}
+        return hit
+
+
+def disjoint_failure(items):
+    """parse the texts in order, keep every result: -> None | the first dict / list object that two of the returned models share"""
+    own = Owned()
+    for kind, text in items:
+        res = run_kind(kind, text)
+        if res[0] == 'ok':
+            hit = own.add(kind, text, res[1])
+            if hit:
+                return hit
+    return None
+
+
+def _edit_scalar(v):
+    if isinstance(v, bool):
+        return not v
+    if isinstance(v, (int, float)):
+        return v * 10 + 7
+    if isinstance(v, str):
+        return v + '~caller'
+    if v is None:
+        return 'caller'
+    return v                # a dict / list: edited itself, in place
+
+
+class CallerEdit:
+    """An in-place edit of EVERY dict and list of a returned model (style 'values': every number / string / bool / null replaced,
+    'keys': every key renamed + a key added + lists reversed, 'clear': every container emptied, 'grow': keys / elements added);
+    undo() restores the same objects in place."""
+
+    def __init__(self, model, style):
+        self.saved = [(node, dict(node) if isinstance(node, dict) else list(node)) for node in mutable_nodes(model)]
+        for node, old in self.saved:
+            if isinstance(node, dict):
+                if style == 'values':
+                    for k, v in old.items():
+                        node[k] = _edit_scalar(v)
+                elif style == 'keys':
+                    node.clear()
+                    for k, v in old.items():
+                        node[str(k) + '~caller'] = _edit_scalar(v)
+                    node['added-by-caller'] = {'number': 42}
+                elif style == 'clear':
+                    node.clear()
+                else:
+                    node['added-by-caller'] = [{'number': 42}]
+            elif style == 'values':
+                node[:] = [_edit_scalar(v) for v in old]
+            elif style == 'keys':
+                node[:] = [_edit_scalar(v) for v in reversed(old)]
+            elif style == 'clear':
+                node.clear()
+            else:
+                node.insert(0, {'label': 'added-by-caller'})
+                node.append('added-by-caller')
+
+    def undo(self):
+        for node, old in self.saved:
+            if isinstance(node, dict):
+                node.clear()
+                node.update(old)
+            else:
+                node[:] = old
+
+
+def caller_owns_failure(edits, style, others, own=None, hits=None):
+    """The caller parses the texts `edits` and `others` (kind, text) and KEEPS every result; then edits the returned models of
+    `edits` in place, everywhere.  Required: the kept results of `others` are unchanged, and every text of others + edits parsed
+    again (each accepted text also right after a parse that raised) gives what it gave before the edit.
+    -> None | {'then': [kind, text], 'what', 'before', 'after'};  the edit is undone in place before returning.
+    own / hits: the identity registry the returned models are entered in, and the list its findings are appended to."""
+    kept = []
+    for kind, text in list(edits) + list(others):
+        res = run_kind(kind, text)
+        if own is not None and res[0] == 'ok':
+            hit = own.add(kind, text, res[1])
+            if hit:
+                hits.append(hit)
+        kept.append((kind, text, res, strict(res)))
+    done = []
+    try:
+        for _, _, res, _ in kept[:len(edits)]:
+            if res[0] == 'ok':
+                done.append(CallerEdit(res[1], style))
+        if not done:
+            return None
+        for kind, text, res, before in kept[len(edits):]:
+            if strict(res) != before:
+                return {'then': [kind, text], 'what': 'a model returned EARLIER changed when another returned model was edited', 'before': before, 'after': strict(res)}
+        raised = [(k, t) for k, t, r, _ in kept if r[0] != 'ok']
+        order = kept[len(edits):] + kept[:len(edits)]
+        for n, (kind, text, res, before) in enumerate(order):
+            after = strict(run_kind(kind, text))
+            if after != before:
+                return {'then': [kind, text], 'what': 'a later call gives another result than before the edit', 'before': before, 'after': after}
+            if raised and res[0] == 'ok':
+                bk, bt = raised[n % len(raised)]
+                run_kind(bk, bt)
+                after = strict(run_kind(kind, text))
+                if after != before:
+                    return {'then': [kind, text], 'after-raise': [bk, bt], 'what': 'a later call (after a parse that raised) gives another result than before the edit',
+                            'before': before, 'after': after}
+        return None
+    finally:
+        for e in reversed(done):
+            e.undo()
+
+
+def _short(text, n=1500):
+    return text if len(text) <= n else text[:n] + '...'
+
+
+def report_own(ctx, seen, hits=(), fail=None, edits=None, style=None, others=None):
+    """witnesses of the two ownership oracles (a few per run; every input is replayable on its own)"""
+    for hit in hits:
+        if seen.setdefault('disjoint', 0) < 3 and disjoint_failure(hit['items']):
+            seen['disjoint'] += 1
+            ctx.witness('returned-models-disjoint', {'items': hit['items']}, 'no dict / list object is part of two returned models',
+                        {'shared node': hit['node'], 'paths': hit['paths']})
+    if fail is not None and seen.setdefault('owns', 0) < 3:
+        # smallest history that shows it: one edited text, one text parsed afterwards
+        then = [tuple(fail['then'])] + ([tuple(fail['after-raise'])] if 'after-raise' in fail else [])
+        small = None
+        for e in list(edits) + OWN_PROBES:          # ... and a probe in place of a long text, when it shows the same
+            f = caller_owns_failure([e], style, then)
+            if f is not None and (small is None or len(e[1]) < len(small[0][1])):
+                small, fail = [e], f
+        if small:
+            t = tuple(fail['then'])
+            then2 = ([] if t == small[0] else [t]) + ([tuple(fail['after-raise'])] if 'after-raise' in fail else [])
+            f = caller_owns_failure(small, style, then2)
+            if f is not None:
+                then, fail = then2, f
+        inp = {'edit': [list(e) for e in (small or edits)], 'style': style, 'then': [list(t) for t in (then if small else others)]}
+        if caller_owns_failure([tuple(e) for e in inp['edit']], style, [tuple(t) for t in inp['then']]) is not None:
+            seen['owns'] += 1
+            ctx.witness('caller-owns-returned-model', inp, _short(fail['before']), _short(fail['after']), oracle_detail=fail['what'])
+
+
+# ---------------------------------------------------------------------------------------------------------------------
 # Streams
 # ---------------------------------------------------------------------------------------------------------------------
 
@@ -821,7 +1045,37 @@ def stream_layout(ctx):
         if run_expr(exprs[k]) != firsts[k]:
             ctx.witness('stateless-expr', {'text': exprs[k]}, brief(firsts[k]), 'differs on second call')
 
-    stream_history(ctx, rng)
+    # round 10: the returned model is the caller's (identity-disjoint results; edit a result everywhere, parse again)
+    own = Owned()
+    own_seen = {}
+    st3 = ctx.stream('owned', 'a returned model is the CALLER\'s: every base text of the layout stream (generated, malformed, shipped), probe scripts with every '
+                              'lowered construct (for / for with index / nested for / while / if-elif-else / functions / includes / jumps) and generated '
+                              'expressions: (a) no dict / list object is part of two returned models (identity walk over every model returned here, '
+                              'parse_script and parse_expression, same and different texts, all kept alive); (b) parse, deep-compare form taken, the returned '
+                              'model EDITED in place everywhere (styles: every number / string / bool / null replaced; every key renamed + keys added + lists '
+                              'reversed; every dict / list emptied; keys / elements added), then the same text, the previous text, a probe and a rejected text '
+                              'parsed again (accepted ones also right after the parse that raised): results and the models returned earlier must equal their '
+                              'pristine forms; the edit is undone in place.  Host-level (object identity, in-place edits): no Lean counterpart.  '
+                              'non-trivial = the text has a for loop, or an expression with a number')
+    todo = [('script', text) for text, _ in seen_texts] + OWN_PROBES + [('expr', e) for e in exprs]
+    if ctx.quick:       # shipped scripts are large: a rotating third of them per run
+        big = [t for t in todo if len(t[1]) > 4000]
+        todo = [t for t in todo if len(t[1]) <= 4000] + rng.sample(big, min(len(big), 6))
+    rng.shuffle(todo)
+    prev = OWN_PROBES[0]
+    for k, (kind, text) in enumerate(todo):
+        style = OWN_STYLES[k % len(OWN_STYLES)]
+        others = [prev, OWN_PROBES[k % len(OWN_PROBES)], OWN_REJECTED[k % len(OWN_REJECTED)]]
+        others = [o for o in others if o != (kind, text)]
+        hits = []
+        fail = caller_owns_failure([(kind, text)], style, others, own, hits)
+        st3.case([kind, text if len(text) < 300 else [len(text), hashlib.sha256(text.encode()).hexdigest()[:12]], style],
+                 nontrivial=('for ' in text) if kind == 'script' else any(c.isdigit() for c in text), tags=[kind, 'style:' + style])
+        report_own(ctx, own_seen, hits, fail, [(kind, text)], style, others)
+        if len(text) < 4000:
+            prev = (kind, text)
+
+    stream_history(ctx, rng, own, own_seen)
 
 
 def _perturb_inside(rng, text):
@@ -845,12 +1099,14 @@ HISTORY_BASES = ["v = 'a  b' + [x  y]", "w = f('p q', 'p  q')", 'a = b * c + d',
                  "jumpif ([l  m] < 'l m') lbl\nlbl:", "for v in f('i  j'):\n    x = [v  w]\nendfor", "z = '  lead' + 'trail  ' + ' '"]
 
 
-def stream_history(ctx, rng):
+def stream_history(ctx, rng, own=None, own_seen=None):
     """parse results do not depend on what was parsed before: families of near-identical texts (they differ only in the blanks
     inside string literals / bracketed names, or only in the blanks between tokens) are parsed in this process in one order and
     by a fresh interpreter in the reverse order; every text must get the same result in both histories"""
     st = ctx.stream('history', 'families of near-identical texts (differing only in blanks inside string literals / bracketed names, or only '
-                               'between tokens): each parsed here in generation order (after everything the earlier streams parsed) and by '
+                               'between tokens): each parsed here in generation order (after everything the earlier streams parsed; every model '
+                               'returned for an earlier member of the family kept and EDITED in place everywhere by the caller, then every member parsed '
+                               'again, no dict / list object shared between returned models) and by '
                                'a fresh interpreter process in reverse order - identical results required; scripts and expressions; '
                                'non-trivial = the family holds >= 2 distinct texts')
     families = []
@@ -866,20 +1122,54 @@ def stream_history(ctx, rng):
         families.append((kind, fam))
     here = []
     items = []
-    for kind, fam in families:
-        for text in fam:
-            items.append((kind, text))
-            here.append(jsonable(run_parse(text) if kind == 'script' else run_expr(text)))
+    own = own if own is not None else Owned()
+    own_seen = own_seen if own_seen is not None else {}
+    for nfam, (kind, fam) in enumerate(families):
+        # round 10: the caller KEEPS and EDITS (in place, everywhere) every model it gets while it goes through the family; the results
+        # compared with the fresh interpreter's are those obtained after the earlier members' models were edited; then every member
+        # again; no returned dict / list object may be part of another returned model.  Edits undone in place at the end of the family.
+        style = OWN_STYLES[nfam % len(OWN_STYLES)]
+        held = []
+        snaps = []
+        hits = []
+        try:
+            for text in fam:
+                items.append((kind, text))
+                res = run_kind(kind, text)
+                here.append(jsonable(res))
+                snaps.append(strict(res))
+                if res[0] == 'ok':
+                    hit = own.add(kind, text, res[1])
+                    if hit:
+                        hits.append(hit)
+                    held.append(CallerEdit(res[1], style))
+            again = [strict(run_kind(kind, text)) for text in fam]
+        finally:
+            for e in reversed(held):
+                e.undo()
+        if hits or again != snaps:
+            fail = None
+            if again != snaps:
+                ix = next(i for i, (a, b) in enumerate(zip(again, snaps)) if a != b)
+                fail = {'then': [kind, fam[ix]], 'what': 'a later call gives another result than before the edit', 'before': snaps[ix], 'after': again[ix]}
+            report_own(ctx, own_seen, hits, fail, [(kind, t) for t in fam], style, [(kind, t) for t in fam])
     fresh = fw.fresh_parse(list(reversed(items)))[::-1]
     pos = 0
     found = 0
-    for kind, fam in families:
+    for nfam, (kind, fam) in enumerate(families):
         for text in fam:
             st.case([kind, text], nontrivial=len(fam) >= 2, tags=[kind, 'family%d' % min(len(fam), 5), here[pos][0]])
             if json.loads(json.dumps(here[pos])) != fresh[pos]:
                 # which earlier text of the family is responsible?  [A, B] vs [B] in fresh interpreters
                 found += 1
                 if found > 5:       # each witness costs a few interpreter starts
+                    pos += 1
+                    continue
+                # is it the edit of an earlier member's returned model (round 10)?  then that is the witness
+                style = OWN_STYLES[nfam % len(OWN_STYLES)]
+                owned_by = next((f for f in ([(kind, o)] for o in fam) if caller_owns_failure(f, style, [(kind, text)])), None)
+                if owned_by is not None:
+                    report_own(ctx, own_seen, (), caller_owns_failure(owned_by, style, [(kind, text)]), owned_by, style, [(kind, text)])
                     pos += 1
                     continue
                 alone = fw.fresh_parse([(kind, text)])[0]
@@ -1655,7 +1945,7 @@ def streams(ctx):
         # the smallest failing input becomes the replay file
         # (the property's own layout oracles first, the one that observes the cascade through the regex proxies last)
         # a history witness without a history, and a shipped file that fails only after what was parsed before, do not replay alone
-        rank = {'input-form': 0, 'layout': 0, 'only-lf-crlf-end-a-line': 2, 'shipped-script-parses': 3}
+        rank = {'input-form': 0, 'layout': 0, 'caller-owns-returned-model': 0, 'only-lf-crlf-end-a-line': 2, 'shipped-script-parses': 3}
 
         def key(w):
             r = rank.get(w.get('oracle'), 1)
@@ -1766,6 +2056,10 @@ def replay(witness):
         return fw.fresh_parse([(inp['kind'], h) for h in inp['history']] + [(inp['kind'], inp['text'])])[-1] != alone
     if oracle == 'stateless-expr':
         return run_expr(inp['text']) != run_expr(inp['text'])
+    if oracle == 'returned-models-disjoint':
+        return disjoint_failure([tuple(x) for x in inp['items']]) is not None
+    if oracle == 'caller-owns-returned-model':
+        return caller_owns_failure([tuple(x) for x in inp['edit']], inp['style'], [tuple(x) for x in inp['then']]) is not None
     if oracle == 'caret':
         try:
             return caret_check(inp['line'], inp['column'], str(parser.BareScriptParserError('Syntax error', inp['line'], inp['column']))) is not None
@@ -1798,7 +2092,9 @@ LEVEL_NOTE = ('Trusted: Lean kernel; extract.py; this harness. Modelled not veri
               'exercised on the implementation by the layout oracle (continuation at every inter-token gap). Trailing blanks: proved per '
               'recogniser for keyword-only statements, else, if/elif/while and return (trailing_ws_irrelevant_partial, keyword_line_layout); '
               'for the other statement kinds correspondence-strength. Statelessness (parse_stateless of DESIGN) is immediate in Lean (functions) and '
-              'is a property of the Python side: checked by the stateless stream (re-parse in shuffled order after mutating earlier results).')
+              'is a property of the Python side: checked by the stateless stream (re-parse in shuffled order after mutating earlier results) and, '
+              'round 10, by the owned stream / the history stream: returned models share no dict / list object and stay the same when the caller edits '
+              'a returned model everywhere in place (identity and in-place edits are host-level: implementation-side oracles only).')
 
 
 # extension: a line broken at ANY blank run, for every statement kind (DESIGN 13.9)
